@@ -500,7 +500,11 @@ class ExprMixin:
             k = z3.simplify(idx)
             if not self.ctx.branch(self.dhas(r, k), "dict-has-key"):
                 self.raise_("KeyError", self.anchor(node), [k])
-            return self.dget(r, k)
+            val = self.dget(r, k)
+            vs = self.st.ghost.get("dict_value_sorts", {}).get(str(z3.simplify(base)))
+            if vs is not None:
+                self.assume_shape(val, vs)      # declared value type of this (agent-owned) dictionary
+            return val
         if nm in ("list", "tuple", "deque"):
             ti = self.tag(idx, "getitem-idx")
             if ti not in ("int", "bool"):
